@@ -152,10 +152,8 @@ def check_fock_measure():
         for n in (2, 3):
             ket = rng.randn(*([cut] * n)) + 1j * rng.randn(*([cut] * n))
             ket /= np.linalg.norm(ket)
-            for r in range(1, n + (0 if n > 2 else 1)):
+            for r in range(1, n + 1):
                 for modes in itertools.permutations(range(n), r):
-                    if len(modes) == n and n > 2:
-                        continue
                     nout = cut ** len(modes)
                     for forced in range(nout):
                         EVAL[0] += 1
